@@ -138,7 +138,7 @@ func runC13(run *Run, replay string) {
 					}
 				}
 			}
-			run.Case("tokens", []S{bodySchemaS(sc.Main.Schema), bodyS(body), Str(string(sc.Src))}, canonStrings(bodyLevel))
+			run.Case("tokens", []S{sc.schemaS(), bodyS(body), Str(string(sc.Src))}, canonStrings(bodyLevel))
 			if len(run.Res.Samples) < 3 && len(toks) > 3 {
 				run.Sample(map[string]interface{}{"src": string(sc.Src), "tokens": Show(resultS(toks))})
 			}
@@ -176,7 +176,7 @@ func runC14(run *Run, replay string) {
 				continue
 			}
 			noSchema := si%3 == 2
-			schS := bodySchemaS(sc.Main.Schema)
+			schS := sc.schemaS()
 			if noSchema {
 				sc.Main.Ctx.Schema = nil
 				schS = Nil
